@@ -10,6 +10,12 @@ THEOREMS = ["c05_link_is_alias", "c05_link_keeps_attrs", "c05_write_seen_through
             "c05_refused_append_unchanged", "c05_linked_dimension_is_alias", "c05_linked_set_dimension",
             "c05_dimension_write_through", "c05_ticks_and_link_replace_each_other", "c05_feature_data_is_alias"]
 PRELUDES = [
+    # equal names in two blocks: positions, extents and feature data must refuse the namesake from the other block
+    [["create", 0, "CBlocks", "a", "t", []], ["create", 0, "CBlocks", "b", "t", []], ["create", 1, "CDataArrays", "a", "t", [1, 2]],
+     ["create", 1, "CDataArrays", "b", "t", [3, 4]], ["create", 2, "CDataArrays", "a", "t", [5, 6]], ["create", 2, "CDataArrays", "b", "t", [7, 8]],
+     ["create_mtag", 1, "c", "t", 3], ["set_link", 7, "RPositions", 5], ["set_link", 7, "RExtents", 6], ["set_link", 7, "RExtents", 4],
+     ["set_link", 7, "RPositions", 4], ["create_feature", 7, 5, "untagged"], ["create_feature", 7, 3, "untagged"],
+     ["set_link", 8, "RFeatureData", 6], ["set_attr", 4, "ALabel", "x"], ["reopen", False]],
     # sources (top-level and nested) taken FROM one entity's source list and appended to the lists of others
     [["create", 0, "CBlocks", "a", "t", []], ["create", 1, "CSources", "a", "t", []], ["create", 2, "CSources", "b", "t", []],
      ["create", 1, "CDataArrays", "a", "t", [1]], ["create", 1, "CDataArrays", "b", "t", [2]], ["create", 1, "CTags", "c", "t", [1]],
